@@ -720,30 +720,24 @@ func c08R3(c *Ctx, r *c08Roles) {
 	refName, _ := c08RefNameConst(c.P)
 	isTag := func(n string) bool { return n == "(~/content.Tagger).Tag" || n == c08nResTag }
 	// loadIndex role: a range over ocispec.Index.Manifests below which (directly or in a helper) every entry is tagged
-	type loader struct {
-		fn *ssa.Function
-		l  *Loop
-	}
-	var loaders []loader
+	var loaders []*c09Iter
 	for _, f := range c09FuncsOfPkg(c.P, c08Pkg) {
-		if r.savers[f] {
+		if r.savers[f] || c09IsYieldBody(f) {
 			continue
 		}
-		for _, l := range Loops(f) {
-			ranged, _, _, _, ok := l.RangeIndex()
-			if !ok {
-				continue
-			}
+		for _, it := range c09ItersIn(f) {
 			isManifests := false
-			for _, rt := range Roots(ranged) {
-				if u, ok := rt.(*ssa.UnOp); ok {
-					if fa, ok := u.X.(*ssa.FieldAddr); ok && strings.HasSuffix(fieldName(fa.X.Type(), fa.Field), "ocispec.Index.Manifests") {
-						isManifests = true
+			if it.Coll != nil {
+				for _, rt := range Roots(it.Coll) {
+					if u, ok := rt.(*ssa.UnOp); ok {
+						if fa, ok := u.X.(*ssa.FieldAddr); ok && strings.HasSuffix(fieldName(fa.X.Type(), fa.Field), "ocispec.Index.Manifests") {
+							isManifests = true
+						}
 					}
 				}
 			}
-			if isManifests && reachesCall(f, 2, func(n string, _ ssa.CallInstruction) bool { return isTag(n) }) {
-				loaders = append(loaders, loader{f, l})
+			if isManifests && reachesCall(it.Fn, 2, func(n string, _ ssa.CallInstruction) bool { return isTag(n) }) {
+				loaders = append(loaders, it)
 			}
 		}
 	}
@@ -752,38 +746,33 @@ func c08R3(c *Ctx, r *c08Roles) {
 		return
 	}
 	var loaderFns []*ssa.Function
-	for _, ld := range loaders {
-		L, l := ld.fn, ld.l
-		loaderFns = append(loaderFns, L)
-		ln := FnName(L)
-		ranged, idx, body, _, _ := l.RangeIndex()
-		// the element of this iteration
-		var elem ssa.Value
-		for _, ref := range *idx.Referrers() {
-			if ia, ok := ref.(*ssa.IndexAddr); ok && (c09SameKey(ia.X, ranged) || c09SameFieldLoad(ia.X, ranged)) {
-				for _, r2 := range *ia.Referrers() {
-					if ld, ok := r2.(*ssa.UnOp); ok && ld.Op == token.MUL {
-						elem = ld
-					}
-				}
-			}
+	for _, it := range loaders {
+		it := it
+		L, l := it.Fn, it.Loop
+		outer := it.Stmt.Parent()
+		loaderFns = append(loaderFns, outer)
+		ln := FnName(outer)
+		lpos := it.Stmt.Pos()
+		if l != nil {
+			lpos = blockPos(l.Header)
 		}
+		elem := it.Val
 		if elem == nil {
-			c.Undecided(R3, ln+"|every-entry-tagged-by-digest-stripped", blockPos(l.Header), "the element of the range over Index.Manifests is not read as manifests[i]")
+			c.Undecided(R3, ln+"|every-entry-tagged-by-digest-stripped", lpos, "the element of the range over Index.Manifests is not bound to a value")
 			continue
 		}
 		obj := c09DescObjOf(elem)
 		inObj := func(v ssa.Value) bool { return v != nil && (obj.vals[v] || obj.vals[strip(v)]) }
-		header := l.Header.Instrs[0]
 		inLoop := func(ins []ssa.Instruction) []ssa.Instruction {
 			var out []ssa.Instruction
 			for _, in := range ins {
-				if l.Contains(in) {
+				if it.InBody(in) {
 					out = append(out, in)
 				}
 			}
 			return out
 		}
+		bodyB, bodyI := it.BodyStart()
 		// Tag(strip(desc), desc.Digest.String()) / IndexAll(plain(desc)) — performed in the loop or by a helper called from it
 		byDigest := inLoop(c09EffectSites(L, c09Identity, func(call ssa.CallInstruction, bind c09Bind) bool {
 			a := call.Common().Args
@@ -809,10 +798,10 @@ func c08R3(c *Ctx, r *c08Roles) {
 			}
 			return inObj(bind(c09CellOrValue(last)))
 		}, 2))
-		ok1 := len(byDigest) > 0 && !c08PathExists(body.To, 0, header, false, newCut().Instr(byDigest...), nil)
-		c.Check(R3, ln+"|every-entry-tagged-by-digest-stripped", blockPos(l.Header), ok1, ifelse(ok1, "each index entry is tagged by its digest with the ref-name annotation removed", "an index entry can be skipped (or keeps its ref-name annotation) when tagging by digest: Resolve(digest) differs after reopen"))
-		ok2 := len(idxAll) > 0 && !c08PathExists(body.To, 0, header, false, newCut().Instr(idxAll...), nil)
-		c.Check(R3, ln+"|every-entry-indexed", blockPos(l.Header), ok2, ifelse(ok2, "each index entry's graph is indexed", "an index entry's graph may not be indexed: Predecessors differ after reopen"))
+		ok1 := len(byDigest) > 0 && !it.ContinuesWithout(bodyB, bodyI, newCut().Instr(byDigest...))
+		c.Check(R3, ln+"|every-entry-tagged-by-digest-stripped", lpos, ok1, ifelse(ok1, "each index entry is tagged by its digest with the ref-name annotation removed", "an index entry can be skipped (or keeps its ref-name annotation) when tagging by digest: Resolve(digest) differs after reopen"))
+		ok2 := len(idxAll) > 0 && !it.ContinuesWithout(bodyB, bodyI, newCut().Instr(idxAll...))
+		c.Check(R3, ln+"|every-entry-indexed", lpos, ok2, ifelse(ok2, "each index entry's graph is indexed", "an index entry's graph may not be indexed: Predecessors differ after reopen"))
 		// Tag(desc, desc.Annotations[refName]) exactly when the annotation is non-empty: evaluated in the
 		// function that hosts that call (the loader, or the helper that handles one entry)
 		ok3, found := true, false
@@ -822,9 +811,10 @@ func c08R3(c *Ctx, r *c08Roles) {
 			bind c09Bind
 			loop *Loop
 		}{{L, c09Identity, l}}
+		selfIsBody := l == nil
 		for _, call := range Calls(L, func(string) bool { return true }) {
 			g := StaticCallee(call)
-			if _, isCall := call.(*ssa.Call); !isCall || g == nil || !l.Contains(call.(ssa.Instruction)) || fnPkgPath(g) != fnPkgPath(L) || len(g.Blocks) == 0 {
+			if _, isCall := call.(*ssa.Call); !isCall || g == nil || !it.InBody(call.(ssa.Instruction)) || fnPkgPath(g) != fnPkgPath(L) || len(g.Blocks) == 0 {
 				continue
 			}
 			args := call.Common().Args
@@ -905,13 +895,17 @@ func c08R3(c *Ctx, r *c08Roles) {
 						if c08PathExists(e.To, 0, h.loop.Header.Instrs[0], false, ct, nil) {
 							ok3 = false
 						}
+					} else if h.fn == L && selfIsBody {
+						if it.ContinuesWithout(e.To, 0, ct) {
+							ok3 = false
+						}
 					} else if c08NilReturnFrom(e.To, 0, ct) != nil {
 						ok3 = false
 					}
 				}
 			}
 		}
-		c.Check(R3, ln+"|tagged-by-ref-iff-annotated", blockPos(l.Header), ok3 && found, ifelse(ok3 && found, "an entry is tagged by its ref-name annotation exactly when the annotation is non-empty", "the reference tag is not (re)created exactly for the entries that carry a ref-name annotation: tags differ after reopen"))
+		c.Check(R3, ln+"|tagged-by-ref-iff-annotated", lpos, ok3 && found, ifelse(ok3 && found, "an entry is tagged by its ref-name annotation exactly when the annotation is non-empty", "the reference tag is not (re)created exactly for the entries that carry a ref-name annotation: tags differ after reopen"))
 		// errors of the load steps are returned (in the function that makes the call, and by the loader for helper calls)
 		okErr, detail := true, ""
 		var checkErr func(fn *ssa.Function, depth int)
@@ -924,18 +918,24 @@ func c08R3(c *Ctx, r *c08Roles) {
 				g := StaticCallee(call)
 				helper := g != nil && depth > 0 && fnPkgPath(g) == fnPkgPath(L) && len(g.Blocks) > 0 && ErrResultIndex(g.Signature) >= 0 &&
 					reachesCall(g, 1, func(n string, _ ssa.CallInstruction) bool { return isTag(n) })
-				if fn == L && !l.Contains(call.(ssa.Instruction)) {
+				if fn == L && !it.InBody(call.(ssa.Instruction)) {
 					continue
 				}
 				if isTag(n) || n == "(*~/internal/graph.Memory).IndexAll" || helper {
-					if res := ErrFlow(call, ErrFlowOpts{}); !res.OK {
+					if c09IsYieldBody(fn) {
+						// inside a range-over-func body: the error is parked in a variable of the enclosing
+						// function, which returns it after the loop was left with `return false`
+						if !c08YieldBodyReturnsErr(call) {
+							okErr, detail = false, FnName(fn)+": the error of "+n+" does not leave the range-over-func loop"
+						}
+					} else if res := ErrFlow(call, ErrFlowOpts{}); !res.OK {
 						// chained form (`err := a(); if err == nil { err = b() }; if err != nil { return err }`):
 						// decided with the nil facts carried along each path
 						in := call.(ssa.Instruction)
 						e := ErrOf(call)
 						swallowed := e == nil || c08PathExists(in.Block(), instrIndex(in)+1, nil, true, nil, []ssa.Value{e})
-						if !swallowed && fn == L {
-							swallowed = c08PathExists(in.Block(), instrIndex(in)+1, header, false, nil, []ssa.Value{e})
+						if !swallowed && fn == L && l != nil {
+							swallowed = c08PathExists(in.Block(), instrIndex(in)+1, l.Header.Instrs[0], false, nil, []ssa.Value{e})
 						}
 						if swallowed {
 							okErr, detail = false, FnName(fn)+": "+res.Detail
@@ -948,7 +948,7 @@ func c08R3(c *Ctx, r *c08Roles) {
 			}
 		}
 		checkErr(L, 2)
-		c.Check(R3, ln+"|load-errors-returned", blockPos(l.Header), okErr, ifelse(okErr, "errors of the three load steps are returned", "a load error is dropped: "+detail))
+		c.Check(R3, ln+"|load-errors-returned", lpos, okErr, ifelse(okErr, "errors of the three load steps are returned", "a load error is dropped: "+detail))
 	}
 	loadersContain := func(g *ssa.Function) bool {
 		for _, L := range loaderFns {
@@ -1075,6 +1075,62 @@ func c08R3(c *Ctx, r *c08Roles) {
 	if nDec == 0 {
 		c.LostAnchor(R3, "decoding of index.json / oci-layout in ~/content/oci")
 	}
+}
+
+// c08YieldBodyReturnsErr: the error of a call inside a range-over-func body is
+// stored into a captured variable and the body returns false on its non-nil
+// edge; the enclosing function returns that variable.
+func c08YieldBodyReturnsErr(call ssa.CallInstruction) bool {
+	fn := call.Parent()
+	e := ErrOf(call)
+	if e == nil || fn.Parent() == nil {
+		return false
+	}
+	al := Aliases(e)
+	_, nonNil, _ := NilTests(fn, al)
+	if len(nonNil) == 0 {
+		return false
+	}
+	var cells []ssa.Value
+	var stores []ssa.Instruction
+	AllInstrs(fn, func(in ssa.Instruction) {
+		if st, ok := in.(*ssa.Store); ok && al[st.Val] {
+			if fv, isFV := st.Addr.(*ssa.FreeVar); isFV {
+				stores = append(stores, st)
+				cells = append(cells, freeVarBindings(fv)...)
+			}
+		}
+	})
+	if len(stores) == 0 {
+		return false
+	}
+	for _, ne := range nonNil {
+		for _, r := range Returns(fn) {
+			if !reach(ne.To, 0, r, nil) {
+				continue
+			}
+			cst, isC := r.Results[0].(*ssa.Const)
+			if !isC || cst.Value == nil || cst.Value.String() != "false" || reach(ne.To, 0, r, newCut().Instr(stores...)) {
+				return false
+			}
+		}
+	}
+	// the enclosing function hands the variable back
+	parent := fn.Parent()
+	errIdx := ErrResultIndex(parent.Signature)
+	if errIdx < 0 {
+		return false
+	}
+	for _, r := range Returns(parent) {
+		if ld, ok := r.Results[errIdx].(*ssa.UnOp); ok && ld.Op == token.MUL {
+			for _, cell := range cells {
+				if ld.X == cell {
+					return true
+				}
+			}
+		}
+	}
+	return false
 }
 
 // ---------------------------------------------------------------- R4
